@@ -56,6 +56,9 @@ func genC14(r *simrt.RNG, tier string, variant int) Plan {
 		default:
 			op.Kind = "call"
 			op.Size = Pick(r, []int{0, 100, 5000, 20500})
+			if r.Bool(0.06) {
+				op.Size = 300000 // dozens of write-buffer flushes for one message
+			}
 			op.Err = r.Bool(0.15)
 		}
 		p.Ops = append(p.Ops, op)
